@@ -183,7 +183,7 @@ def run(ctx, rep):
     bad_hist = None
     for L in range(1, 7):
         for seq in itertools.product(ops, repeat=L):
-            state = {"_dict": {}, "_lock": object()}
+            state = {"_dict": {}, "_lock": _ModelLock()}
             out = 0
             ok_seq = True
             trace = []
@@ -228,28 +228,13 @@ def run(ctx, rep):
     dprm = A.params(fdec.node)
     cntp = dprm[2]
     tests = [n for n in A.walk(fdec.node) if isinstance(n, ast.If)]
-    body_del = [n for n in A.walk(fdec.node) if isinstance(n, ast.Delete)]
+    body_del = [n for n in A.walk(fdec.node) if isinstance(n, ast.Delete) and isinstance(n.targets[0], ast.Subscript)]
     keyp = dprm[1]
     key_ok = all(A.src(n.targets[0].slice) == keyp for n in body_del) if body_del else False
     rep.ob("R10.4", "RefCountingColl.decref: removes the slot of the key it was given", bool(key_ok),
            "del self._dict[%s]" % keyp if key_ok else "decref deletes a different key", fdec.loc, kind="site")
-    cls = ctx.cls(COLL)
-    for mname, m in sorted(cls.methods.items()):
-        if mname in ("__init__", "__repr__"):
-            continue
-        uses = [n for n in A.walk(m.node) if isinstance(n, ast.Attribute) and n.attr == "_dict" and K.self_attr(n)]
-        unlocked = []
-        for u in uses:
-            w = None
-            for a in A.ancestors(u):
-                if isinstance(a, ast.With) and any(K.self_attr(it.context_expr, "_lock") for it in a.items):
-                    w = a
-            if w is None:
-                unlocked.append(u)
-        rep.ob("R10.4", "RefCountingColl.%s: the table is touched only under the collection's lock" % mname,
-               bool(uses) and not unlocked,
-               "%d access(es), all inside `with self._lock`" % len(uses) if uses and not unlocked else
-               "self._dict is accessed outside the lock in %s" % mname, m.loc, kind="site")
+    from . import hygiene as H_
+    H_.lock_discipline(ctx, rep, "R10.4", COLL, "_lock", "_dict")
     # add stores the slot under the key with the object
     stores = [n for n in A.walk(fadd.node) if isinstance(n, ast.Assign) and isinstance(n.targets[0], ast.Subscript)
               and K.self_attr(n.targets[0].value, "_dict")]
@@ -316,6 +301,30 @@ def run(ctx, rep):
     rep.rule("R10.11", "the value a handler returned stays bound to a local until the reply is handed to the send layer (a proxy "
                        "handed back is not released before the reply that carries it)")
     _retention_rules(ctx, rep)
+    K.share(ctx, rep, "c03", lambda o: o.rule == "R03.9", "R10.9", floor=1)
+
+
+class _ModelLock:
+    """the collection's lock as the interpreted methods see it"""
+    mi_native = True
+
+    def __init__(self):
+        self.held = 0
+
+    def acquire(self, *a):
+        self.held += 1
+        return True
+
+    def release(self):
+        self.held -= 1
+
+    def mi_enter(self):
+        self.held += 1
+        return self
+
+    def mi_exit(self, *a):
+        self.held -= 1
+        return False
 
 
 def _retention_rules(ctx, rep):
